@@ -190,6 +190,7 @@ func c05HookOps() []c05Op {
 				for i := range os {
 					cp[i] = *c05CloneOrder(os[i])
 				}
+				c05NoteBatches(len(cp), size)
 				return db.CreateInBatches(&cp, size).Error
 			}
 		}},
@@ -264,6 +265,14 @@ func c05BuildHooks(op c05Op, seed int64, where string) *c05World {
 		panic(err)
 	}
 	rng := rand.New(rand.NewSource(seed))
+	c05HookSeed(db, rng)
+	w := &c05World{where: where, db: db, rec: rec, sqlDB: sqlDB, keep: keep, tables: c05HookTables}
+	w.run = op.Setup(db, rng)
+	rec.Reset()
+	return w
+}
+
+func c05HookSeed(db *gorm.DB, rng *rand.Rand) {
 	for i := 0; i < 3; i++ {
 		o := c05GenOrder(rng, fmt.Sprint("s", i))
 		if i == 0 {
@@ -276,10 +285,6 @@ func c05BuildHooks(op c05Op, seed int64, where string) *c05World {
 	if err := db.Create(&C05Audit{Key: "seeded"}).Error; err != nil {
 		panic(err)
 	}
-	w := &c05World{where: where, db: db, rec: rec, sqlDB: sqlDB, keep: keep, tables: c05HookTables}
-	w.run = op.Setup(db, rng)
-	rec.Reset()
-	return w
 }
 
 type c05HookScenario struct {
